@@ -68,6 +68,9 @@ class Ledger:
         self.dirty = set()
         self.dead = set()
         self.next_ack = 0
+        if not hasattr(self, "nr"):
+            self.nr = 0      # static next_remote (Bi): raised by MAX_STREAM_DATA on peer-initiated ids
+            self.rep = 0     # accepts that certainly succeeded
 
     def params(self, p):
         self.par = list(p)
@@ -109,8 +112,22 @@ class Ledger:
     def remote_ids(self):
         return [(i << 2) | (1 - self.side) for i in range(self.mrb)]
 
+    def accepted_ids(self):
+        return [(i << 2) | (1 - self.side) for i in range(min(self.rep, self.mrb))]
 
-def pick_id(rng, L, local_only=False):
+    def app_safe(self, sid):
+        """The application never names a peer-initiated stream that exists but was not accepted."""
+        if (sid & 1) != self.side and not (sid >> 1) & 1 and self.rep <= (sid >> 2) < self.mrb:
+            return ((self.mrb + (sid >> 2)) << 2) | (sid & 3)
+        return sid
+
+
+def pick_id(rng, L, local_only=False, app=False):
+    sid = pick_id0(rng, L, local_only, app)
+    return L.app_safe(sid) if app else sid
+
+
+def pick_id0(rng, L, local_only, app):
     loc = L.live_ids() if rng.chance(9, 10) else L.local_ids()
     k = rng.below(20)
     if local_only:
@@ -120,7 +137,7 @@ def pick_id(rng, L, local_only=False):
         return ((L.opened[d] + rng.below(2)) << 2) | (d << 1) | L.side
     if loc and k < 12:
         return rng.choice(loc)
-    rem = L.remote_ids()
+    rem = [i for i in (L.accepted_ids() if app else L.remote_ids()) if app is False or i not in L.dead or rng.chance(1, 5)]
     if rem and k < 16:
         return rng.choice(rem)
     if k < 17:      # unopened local / beyond-limit remote
@@ -161,18 +178,18 @@ def app_op(rng, L, early):
             L.opened[d] += 1
         return [2, d]
     if k < 58:
-        sid = pick_id(rng, L, local_only=early)
+        sid = pick_id(rng, L, local_only=early, app=True)
         n = write_size(rng, L, sid)
         if sid in L.local_ids() or sid in L.remote_ids():
             L.wrote(sid, n)
         return [3, sid, n]
     if k < 63:
-        sid = pick_id(rng, L, local_only=early)
+        sid = pick_id(rng, L, local_only=early, app=True)
         L.dirty.add(sid)
         L.dead.add(sid)
         return [4, sid]
     if k < 66:
-        sid = pick_id(rng, L, local_only=early)
+        sid = pick_id(rng, L, local_only=early, app=True)
         L.dead.add(sid)
         return [5, sid]
     if k < 84:
@@ -217,6 +234,8 @@ def frame_op(rng, L):
         v = min(v, B62)
         if sid in L.local_ids() or sid in L.remote_ids():
             L.lim[sid] = max(L.lim.get(sid, 0), v)
+        if (sid & 1) != L.side and not (sid >> 1) & 1:
+            L.nr = max(L.nr, (sid >> 2) + 1)
         return [7, sid, v]
     if k < 62:
         d = rng.below(2)
@@ -233,7 +252,29 @@ def frame_op(rng, L):
         return [16, sid, rng.below(100)]
     if k < 92:
         return [17, pick_id(rng, L)]
-    return [18, rng.below(2)]
+    d = 0 if rng.chance(3, 4) else 1
+    if d == 0 and L.rep < L.nr:
+        L.rep += 1
+    return [18, d]
+
+
+def remote_stream(rng, L):
+    """The peer opens its next bidirectional stream (MAX_STREAM_DATA on it), the application accepts it and
+    writes around the limit that applies to peer-initiated streams (initial_max_stream_data_bidi_local)."""
+    if L.mrb == 0 or L.rep >= L.mrb or L.nr > L.rep:
+        return []
+    rid = (L.rep << 2) | (1 - L.side)
+    cur = L.stream_lim(rid)
+    v = rng.choice([0, cur, max(0, cur - 1), cur + 1, cur + rng.choice([10, 100])])
+    L.lim[rid] = max(L.lim.get(rid, 0), v)
+    L.nr = L.rep + 1
+    L.rep += 1
+    ops = [[7, rid, v], [18, 0]]
+    for _ in range(rng.range(1, 3)):
+        n = write_size(rng, L, rid)
+        L.wrote(rid, n)
+        ops.append([3, rid, n])
+    return ops
 
 
 def lone_fin(rng, L):
@@ -285,7 +326,9 @@ def gen_wf(rng):
             L.restart()
             L.params(p1)
     for _ in range(rng.range(6, 40)):
-        if rng.chance(3, 5):
+        if rng.chance(1, 10):
+            ops += remote_stream(rng, L)
+        elif rng.chance(3, 5):
             ops.append(app_op(rng, L, False))
         else:
             ops.append(frame_op(rng, L))
@@ -341,7 +384,8 @@ def nontrivial(case, outs):
 def stats(cases, outs):
     d = {"ops": {}, "write": {"full": 0, "cut": 0, "blocked": 0, "stopped": 0, "closed": 0},
          "open": {"some": 0, "none": 0}, "msd": {}, "max_streams": {}, "frames_sent": 0, "acks": 0, "acks_dead": 0,
-         "lost": 0, "panics": 0, "rejections": 0, "events": {}, "len": {"min": 10 ** 9, "max": 0}}
+         "lost": 0, "panics": 0, "rejections": 0, "events": {}, "len": {"min": 10 ** 9, "max": 0},
+         "writes_accepted_on_peer_initiated": 0, "accepts": 0}
     for c, o in zip(cases, outs):
         d["len"]["min"] = min(d["len"]["min"], len(c))
         d["len"]["max"] = max(d["len"]["max"], len(c))
@@ -350,6 +394,10 @@ def stats(cases, outs):
             continue
         for op, r in zip(c, o):
             d["ops"][str(op[0])] = d["ops"].get(str(op[0]), 0) + 1
+            if op[0] == 3 and r[0] == 0 and r[1] > 0 and c and c[0][0] == 0 and (op[1] & 1) != (1 if c[0][1] else 0):
+                d["writes_accepted_on_peer_initiated"] += 1
+            if op[0] == 18 and r[0] == 0:
+                d["accepts"] += 1
             if op[0] == 3:
                 key = {0: "full", 1: "blocked", 2: "stopped", 3: "closed"}.get(r[0], "closed")
                 if r[0] == 0 and r[1] < op[2]:
